@@ -392,7 +392,7 @@ func main() {
 	rep.Rule = "blocks of 1-20 events over 1-5 colliding indices: burn tickets (with the authorizer burn of the same transaction), bridge mints, stake lock/unlock, " +
 		"read pool locks, collected rewards, user overwrites, chain events, unique-address events, stats events without merger, non-stats events; amounts 1-1000 and " +
 		"edge values; real mergeEvents + real burn-ticket handler on an in-memory sqlite EventDb; field blocks: for every withEventMerge merger of the generated table (and the stake pool penalty tag) " +
-		"2-7 events of one tag over 1-3 identities, every field (scalars, delegate maps with 1-3 of 4 pools) zero/empty with probability 1/2, plus all zero/non-zero combinations directed; per identity, field and map key the merged data must sum to the events; non-trivial = at least one bridge event, one additive event and two events sharing an index; distinct by event list"
+		"2-7 events of one tag over 1-3 identities, every field (scalars, delegate maps with 1-3 of 4 pools) zero/empty with probability 1/2, plus all zero/non-zero combinations directed; per identity, field and map key the merged data must sum to the events; busy blocks of 65-300 distinct identities per tag with repeats placed after the 64th/65th/128th/129th distinct identity and at the end; non-trivial = at least one bridge event, one additive event and two events sharing an index; distinct by event list"
 	sc.Init()
 	common.SetupRootContext(context.Background())
 	var err error
@@ -475,7 +475,8 @@ func main() {
 		key, _ := json.Marshal(b)
 		rep.Case(string(key), dup && zero, blockIn{Round: b.Round, Fields: &b})
 		// a tag that is not MfAdd in the table (the penalty tag under the overwrite middleware) is judged by the oracle only
-		if out.err == "" && additiveInTable[b.Tag] {
+		// (busy blocks beyond 140 events are judged by the oracle only: the case files stay small)
+		if out.err == "" && additiveInTable[b.Tag] && len(b.Events) <= 140 {
 			cf.Add(coqFieldCase(b, out))
 			rep.CaseInputs = append(rep.CaseInputs, blockIn{Round: b.Round, Fields: &b})
 		}
@@ -580,6 +581,14 @@ func main() {
 		}
 		for i := 0; i < o.N(12, 300); i++ {
 			handleFields(genFields(frnd, t.tag, t.fs, round))
+			round++
+		}
+		// busy blocks: 65-300 distinct identities
+		for i, d := range []int{frnd.Range(65, 72), frnd.Range(66, 127), frnd.Range(129, 200), frnd.Range(200, 300)} {
+			if i >= o.N(3, 4) {
+				break
+			}
+			handleFields(busyFields(frnd, t.tag, t.fs, d, round))
 			round++
 		}
 	}
